@@ -114,6 +114,11 @@ def real_tokens(src):
             a = prev_end
         if b < a:
             b = a
+        if t.type == xtok.COMMENT and k.string[:1] in (" ", "\t"):
+            # tokenizer quirk: after a capture the COMMENT token may carry the blank(s) before the `#`
+            lead = len(k.string) - len(k.string.lstrip(" \t"))
+            a = min(a + lead, b)
+            k.string = k.string[lead:]
         k.a, k.b = a, b
         prev_end = b
         k.line = t.start[0]
